@@ -29,6 +29,7 @@ const (
 
 var ErrInjected = errors.New("simnet: injected read error")
 var ErrShort = errors.New("simnet: fewer bytes buffered than requested")
+var ErrSegment = errors.New("simnet: the requested octets are not contiguous yet (short peek)")
 
 // Source supplies arriving bytes to a blocked Read: the simulated network
 // decides, at the moment the reader blocks, what arrives next.
@@ -52,6 +53,13 @@ type SimConn struct {
 	// (io.Reader allows n > 0 with a non-nil error; iotest.DataErrReader behaves so).
 	DataErr   bool
 	OnDataErr func()
+	// SegPeek, if set, is asked how many of the n requested (and buffered) octets a Peek can hand out contiguously:
+	// a receive buffer made of segments (or a ring) returns the contiguous part and an error, then rearranges itself,
+	// so the next Peek is complete. The interface allows that: "If Peek returns fewer than n bytes, it also returns
+	// an error". PeekShort records that it happened (the harness resets it).
+	SegPeek   func(avail, n int) int
+	PeekShort bool
+	coalesced bool
 	// ZeroRead, if set, is asked before a Read hands data over whether this call returns (0, nil) instead
 	// (io.Reader discourages but allows it; callers must treat it as "nothing happened").
 	ZeroRead func() bool
@@ -84,6 +92,7 @@ func (c *SimConn) invalidate() {
 // Arrive appends bytes that came from the network (a "fill").
 func (c *SimConn) Arrive(p []byte) {
 	c.Fills++
+	c.coalesced = false
 	switch c.disc {
 	case ReallocPoison:
 		need := (c.w - c.r) + len(p)
@@ -123,6 +132,9 @@ func (c *SimConn) Fail(err error) { c.pendErr = err }
 
 func (c *SimConn) Size() int { return c.w - c.r }
 
+// Unread is for the harness only: the buffered octets, without any of the effects a Peek has.
+func (c *SimConn) Unread() []byte { return c.buf[c.r:c.w] }
+
 func (c *SimConn) Peek(n int) ([]byte, error) {
 	c.Peeks++
 	c.invalidate()
@@ -136,6 +148,13 @@ func (c *SimConn) Peek(n int) ([]byte, error) {
 		err = ErrShort
 		if c.pendErr != nil {
 			err = c.pendErr
+		}
+	}
+	if c.SegPeek != nil && err == nil && n > 1 && !c.coalesced {
+		if k := c.SegPeek(avail, n); k >= 1 && k < n {
+			c.coalesced = true
+			c.PeekShort = true
+			return c.buf[c.r : c.r+k : c.r+k], ErrSegment
 		}
 	}
 	if c.disc == Ring && n > 1 {
@@ -161,6 +180,9 @@ func (c *SimConn) Discard(n int) (int, error) {
 	avail := c.w - c.r
 	if n <= avail {
 		c.r += n
+		if n > 0 {
+			c.coalesced = false
+		}
 		return n, nil
 	}
 	c.r = c.w
